@@ -388,7 +388,9 @@ func runC04(c *Ctx, r *Report) {
 	r.Doc("R-C04.5", "reference budget ≤ requested pointer count")
 	r.Doc("R-C04.6", "the heads named as predecessors are still the log's heads when the entry is installed (one critical section)")
 	r.Doc("R-C04.7", "the loops that take the maximum clock over the heads and build predecessors and references process every element")
-	loopsComplete(c, r, "R-C04.7", func(fn *Fn) bool { return rootNamed(fn, "Append", "SetIdentity", "Join", "getEveryPow2", "maxClockTimeForEntries") }, "a head later in the list is not taken into the maximum: the new entry does not dominate it")
+	loopsComplete(c, r, "R-C04.7", func(fn *Fn) bool {
+		return rootNamed(fn, "Append", "SetIdentity", "Join", "getEveryPow2", "maxClockTimeForEntries")
+	}, "a head later in the list is not taken into the maximum: the new entry does not dominate it")
 	appendSingleSection(c, r, "R-C04.6", "a concurrent append or merge changes the heads in the window, so the new entry does not name the current heads and its clock does not dominate them")
 	clockF, headsF, identF := p.Field("", "IPFSLog", "Clock"), p.Field("", "IPFSLog", "heads"), p.Field("", "IPFSLog", "Identity")
 	me := &monoEngine{p: p, clockF: clockF, headsF: headsF, maxLike: map[*ssa.Function]int{}, accum: map[*ssa.Function]int{}}
